@@ -222,6 +222,11 @@ func vRKeyring(ids []string) *Keyring {
 func (p *vRPair) run(t *testing.T, id int, c vRCase, emit func(vRLine)) {
 	B, A := p.B, p.A
 	B.m.config.Keyring = vRKeyring(c.Start)
+	// (a node is usually created with Config.SecretKey = its first primary key; rotation happens on the keyring)
+	B.m.config.SecretKey = nil
+	if len(c.Start) > 0 {
+		B.m.config.SecretKey = vWKeys[c.Start[0]]
+	}
 	B.d.mu.Lock()
 	B.d.msgs, B.d.states = nil, nil
 	B.d.mu.Unlock()
